@@ -324,6 +324,22 @@ def run(chk):
     run_X3(chk)
     run_X4(chk)
     run_X5(chk)
+    # X6: the dimension of the Krylov space is limited by the caller's ncv, constants and breakdown only.  `vector.size` is the number
+    # of *stored* elements of a block-sparse tensor, not the dimension of the symmetry sector it lives in: a start vector that stores few
+    # blocks (product state, set_block) would clamp the space although f leads out of the stored blocks.
+    chk.rule("X6", "no Krylov dimension is derived from the number of stored elements (`.size`) of a vector", floor=4)
+    prog = chk.prog
+    for mod, name in ((KRY, "expmv"), (KRY, "eigs"), (KRY, "lin_solver"), (TKR, "expand_krylov_space")):
+        f = prog.func(mod, name)
+        vecs = set(f.params) | set(A.local_bindings(f.node))
+        uses = [x for x in ast.walk(f.node) if isinstance(x, ast.Attribute) and x.attr == "size" and isinstance(x.value, ast.Name) and x.value.id in vecs
+                and isinstance(x.ctx, ast.Load)]
+        if not uses:
+            chk.ok("X6", f, f"{f.short}: no `.size` of a vector", sample=False)
+        for u in uses:
+            chk.bad("X6", (f, u), u, f"{f.short}(): `{A.text(u)}` (number of stored block elements) enters the control of the Krylov iteration: for a "
+                    f"block-deficient start vector the space is clamped below the dimension of the reachable sector (eigs/lin_solver stop being "
+                    f"exact; expmv degenerates to a one-dimensional space and its step-size controller diverges)")
 
     from . import e10
     e10.run_U(chk, ("yastn.krylov", "yastn.tensor._krylov"), floor1=5, floor2=1)
